@@ -40,6 +40,8 @@ Frag ==
   @@ "slget"   :> F("Fslget" :> Slice("GslBack"), {}, {})                    \* the source is a getter returning its backing slice
   @@ "slptr"   :> F("Fslptr" :> Slice("Fslptr"), {}, {})                     \* []*int -> []*int (fresh array of the same pointers)
   @@ "slstruct":> F("Fslstruct" :> Slice("Fslstruct"), {}, {})               \* []EN -> []EN
+  @@ "slext"   :> F("Fslext" :> Slice("Fslext"), {}, {})                     \* []vrt.VInt -> []vrt.VInt (element type of an imported package)
+  @@ "slextp"  :> F("Fslextp" :> Slice("Fslextp"), {}, {})                   \* []*vrt.VS -> []*vrt.VS
   @@ "slnest"  :> F(("Fsn.L" :> Slice("Fsn.L")) @@ ("Fsn.K" :> Src("Fsn.K")), {}, {})   \* a slice member of a nested by-value struct
   @@ "nest"    :> F(("Fnest.X" :> Src("Fnest.X")) @@ ("Fnest.Y" :> Src("Fnest.Y")), {}, {})   \* member-wise, by value
   @@ "nestE"   :> F(("FnestE.X" :> Call("CvE2", Src("FnestE.X"))) @@ ("FnestE.Y" :> Src("FnestE.Y")), {"CvE2"}, {"CvE2"})
